@@ -37,8 +37,27 @@ pub(crate) fn resolve_annotation_coordinates(
         let coordinates = &aux.annotation_coordinates_interner[coordinates_id];
         let (krate, annotation) = match krate_collection.annotation_for_coordinates(coordinates) {
             Ok(Ok(Some(v))) => v,
-            // TODO: diagnostics
-            Ok(Ok(None)) => panic!("Can't match blueprint registration to its annotation"),
+            Ok(Ok(None)) => {
+                // E.g. a type alias annotated with `#[pavex::prebuilt]`: the attribute macro accepts it,
+                // but annotations are only indexed on functions, methods, structs, enums and re-exports.
+                let e = anyhow::anyhow!(
+                    "I can't find the item annotated with the component id `{}` in `{}`.\n\
+                    Pavex attributes are only picked up on functions, methods, structs, enums and re-exports. \
+                    Other items (e.g. type aliases) are not supported.",
+                    coordinates.id,
+                    coordinates.created_at.package_name
+                );
+                let source = diagnostics.annotated(
+                    aux.registration_target(&component_id),
+                    "The component was registered here",
+                );
+                diagnostics.push(
+                    crate::diagnostic::CompilerDiagnostic::builder(e)
+                        .optional_source(source)
+                        .build(),
+                );
+                continue;
+            }
             // TODO: diagnostics
             Ok(Err(e)) => panic!("Can't find the package where the annotation was defined: {e:?}"),
             Err(_) => {
@@ -115,10 +134,18 @@ pub(crate) fn resolve_annotation_coordinates(
                     aux.config_id2type.insert(component_id, config);
                 }
                 Err(e) => {
-                    let path_display = krate.import_index.items[&item.id]
-                        .canonical_path()
-                        .to_vec()
-                        .join("::");
+                    // A re-export (`pub use other_crate::Type as Alias`) has no entry of its own
+                    // in the import index: fall back to the name of the annotated item.
+                    let path_display = krate
+                        .import_index
+                        .items
+                        .get(&item.id)
+                        .map(|e| e.canonical_path().to_vec().join("::"))
+                        .or_else(|| match &item.inner {
+                            rustdoc_types::ItemEnum::Use(u) => Some(u.name.clone()),
+                            _ => item.name.clone(),
+                        })
+                        .unwrap_or_else(|| "the annotated item".to_string());
                     invalid_config_type(e, &path_display, component_id, aux, diagnostics)
                 }
             };
@@ -155,10 +182,18 @@ pub(crate) fn resolve_annotation_coordinates(
                     prebuilt_type_db.get_or_intern(prebuilt, component_id);
                 }
                 Err(e) => {
-                    let path_display = krate.import_index.items[&item.id]
-                        .canonical_path()
-                        .to_vec()
-                        .join("::");
+                    // A re-export (`pub use other_crate::Type as Alias`) has no entry of its own
+                    // in the import index: fall back to the name of the annotated item.
+                    let path_display = krate
+                        .import_index
+                        .items
+                        .get(&item.id)
+                        .map(|e| e.canonical_path().to_vec().join("::"))
+                        .or_else(|| match &item.inner {
+                            rustdoc_types::ItemEnum::Use(u) => Some(u.name.clone()),
+                            _ => item.name.clone(),
+                        })
+                        .unwrap_or_else(|| "the annotated item".to_string());
                     invalid_prebuilt_type(e, &path_display, component_id, aux, diagnostics)
                 }
             };
